@@ -512,7 +512,7 @@ func runSvcUnusual(s *svc, u *svcUnusual, before map[string][]byte) (violation s
 			}
 		}
 	}
-	trace = append(trace, "unusual/sigusr1-dup-name-document-"+strings.Join(choice, "+"), "unusual/ws-"+wsNames[u.Doc.WS])
+	trace = append(trace, "unusual/sigusr1-dup-name-document-loaded", "unusual/sigusr1-dup-name-document-"+strings.Join(choice, "+"), "unusual/ws-"+wsNames[u.Doc.WS])
 	userPath := func(n string) string { return "/servers/ss/users/" + encSeg(n, u.Enc) }
 	getUser := func(n string) string {
 		code, body, err := s.apiRaw("GET", userPath(n), nil)
@@ -653,7 +653,7 @@ var recSvc = ev.New("C08", "service-sigusr1",
 		"wrong-length, truncated) then SIGUSR1 to the process; outcome taken from the service's log line; afterwards GET users over HTTP and "+
 		"real TCP/UDP clients per universe key through the relay to echo servers must match the file when valid, the previous set otherwise; "+
 		"optionally a final POST users and the real 5 s save. Non-trivial: a signal-triggered reload changed the set. Distinct key = outcome trace").
-	Require("sigusr1-changed-set", "service-unusual/dup-name-then-delete", "service-unusual/dup-name-then-rotate", "service-unusual/http-per-user-requests-with-lookalike-present")
+	Require("sigusr1-changed-set", "service-unusual/sigusr1-dup-name-document-loaded", "service-unusual/dup-name-then-delete", "service-unusual/dup-name-then-rotate", "service-unusual/http-per-user-requests-with-lookalike-present")
 
 func TestServiceSIGUSR1(t *testing.T) {
 	n := 2
